@@ -1159,6 +1159,29 @@ class Fn:
 
 ANN = {"int": "int", "Decimal": "dec", "bool": "bool", "str": "str"}
 
+# Python identifiers that are reserved words / commands of Lean 4 (or names the generated code itself uses): written `«name»` in the output
+LEAN_RESERVED = set("""end from at fun let do then else if match with open in show have by where structure class instance def theorem lemma example
+namespace section variable universe import export mut return for unless try catch finally macro syntax notation deriving inductive abbrev axiom
+opaque private protected noncomputable partial unsafe calc suffices obtain using this nomatch nofun termination_by decreasing_by attribute
+set_option local scoped prefix infix infixl infixr postfix mutual extends deprecated elab register_simp_attr initialize builtin_initialize
+Type Prop Sort""".split())
+# names the generated code itself uses: a Python variable of that name would capture them
+GENERATED_NAMES = {"cx", "dpow", "fuel", "pure", "throw", "bind", "true", "false", "none", "some", "decide", "truncInt", "Py", "M", "Int", "Rat", "Nat"}
+
+
+def lid(name):
+    return f"«{name}»" if name in LEAN_RESERVED else name
+
+
+class _LeanNames(ast.NodeTransformer):
+    def visit_Name(self, node):
+        node.id = lid(node.id)
+        return node
+
+    def visit_arg(self, node):
+        node.arg = lid(node.arg)
+        return node
+
 
 class _StateRewriter(ast.NodeTransformer):
     """object fields listed in Unit.state become plain variables: `self.balance` (read or written) ↦ `balance`, `return self` ↦ `return
@@ -1397,7 +1420,7 @@ class Unit:
         self.funcs = [(o.get("as", n), pt) for n, pt, o in entries]
         for (n, pt, o) in entries:
             key = o.get("as", n)
-            self.sigs[key] = Sig(key, self.prefix + key, list(pt.items()))
+            self.sigs[key] = Sig(key, self.prefix + key, [(lid(pn), pty) for pn, pty in pt.items()])
         consts = {}
         for src_name, ptypes, opts in entries:
             name = opts.get("as", src_name)
@@ -1427,8 +1450,24 @@ class Unit:
                 argnames = [x.arg for x in a.args]
                 if argnames and argnames[0] == "self" and self.cur_cls:
                     argnames = argnames[1:]          # a method: `self` is reachable only through Unit.reads
+                if opts.get("nested_in") and len(argnames) == len(ptypes) and argnames != list(ptypes):
+                    # a function defined inside another one has no outside callers and the translated calls are positional: its parameters are
+                    # matched by position, so renaming one is not a change
+                    ptypes = dict(zip(argnames, ptypes.values()))
+                    sig.params = [(lid(pn), pty) for pn, pty in ptypes.items()]
                 if argnames != list(ptypes):
                     fail(fdef, f"parameters {[x.arg for x in a.args]} differ from the translator's signature table {list(ptypes)}")
+                # a read / field of the tables becomes a binder of that name: a Python variable of the same name would capture it
+                table_names = {nm for nm, _ in self.cur_reads.values()} | {v for v, _ in self.cur_state.values()}
+                same_value = set()       # `x = <the read that the table calls x>`: the variable holds the input itself, nothing is captured
+                for m in ast.walk(orig_fdef):
+                    if isinstance(m, ast.Assign) and len(m.targets) == 1 and isinstance(m.targets[0], ast.Name) \
+                            and self.cur_reads.get(ast.unparse(m.value), (None,))[0] == m.targets[0].id:
+                        same_value.add(m.targets[0])
+                for m in ast.walk(orig_fdef):
+                    nm = m.id if isinstance(m, ast.Name) and not isinstance(m.ctx, ast.Load) else (m.arg if isinstance(m, ast.arg) else None)
+                    if nm is not None and nm in table_names and m not in same_value:
+                        fail(m, f"the variable '{nm}' has the name the read / state table gives to an input of this function")
                 for x in a.args:
                     an = getattr(x.annotation, "id", None)
                     if x.arg in ptypes and an in ANN and ANN[an] != ptypes[x.arg] and x.arg not in opts.get("override_ann", ()):
@@ -1439,6 +1478,12 @@ class Unit:
                 for x in a.args:
                     if x.arg in ptypes and ptypes[x.arg] in ("time", "delta") and getattr(x.annotation, "id", None) not in (None, "datetime", "timedelta"):
                         fail(fdef, f"parameter {x.arg} is annotated {getattr(x.annotation, 'id', None)}, the signature table says {ptypes[x.arg]}")
+                for m in ast.walk(fdef):
+                    nm = m.id if isinstance(m, ast.Name) and not isinstance(m.ctx, ast.Load) else (m.arg if isinstance(m, ast.arg) else None)
+                    if nm is not None and (nm in GENERATED_NAMES or re.fullmatch(r"t\d+", nm)):
+                        fail(m, f"the variable name '{nm}' is used by the generated code itself")
+                if any(isinstance(m, ast.Name) and m.id in LEAN_RESERVED for m in ast.walk(fdef)) or any(x.arg in LEAN_RESERVED for x in a.args):
+                    fdef = _LeanNames().visit(copy.deepcopy(fdef))      # `end`, `from`, … are fine in Python and reserved in Lean
                 fn = Fn(self, fdef, list(self.cur_state.values()) + sig.params, consts or dict(EXTERNAL_CONSTS))
                 lines, ret, uses_cx, uses_pow = fn.translate()
                 sig.ret, sig.uses_cx, sig.uses_pow = ret, uses_cx, uses_pow
@@ -1500,6 +1545,12 @@ UNITS = [
         ("get_amount0", {"sqrtA": I, "sqrtB": I, "liquidity": I, "decimals": I}),
         ("get_amount1", {"sqrtA": I, "sqrtB": I, "liquidity": I, "decimals": I}),
         ("get_amounts", {"sqrt_price_x96": I, "tickA": I, "tickB": I, "liquidity": I, "decimal0": I, "decimal1": I}),
+        # the same three functions read with a Decimal liquidity (annotated int; a position's liquidity is a Decimal after a partial removal through
+        # the public API, whose decorator converts the int argument): the products with it round through the context
+        ("get_amount0", {"sqrtA": I, "sqrtB": I, "liquidity": D, "decimals": I}, {"as": "get_amount0_dliq", "override_ann": ("liquidity",)}),
+        ("get_amount1", {"sqrtA": I, "sqrtB": I, "liquidity": D, "decimals": I}, {"as": "get_amount1_dliq", "override_ann": ("liquidity",)}),
+        ("get_amounts", {"sqrt_price_x96": I, "tickA": I, "tickB": I, "liquidity": D, "decimal0": I, "decimal1": I},
+         {"as": "get_amounts_dliq", "override_ann": ("liquidity",)}),
     ]),
 ]
 
@@ -1573,6 +1624,10 @@ UNISWAP_CORE = Unit("UniswapCore", "demeter/uniswap/core.py", [
      {"reads": dict(_UC_POOL, **{"pos.lower_tick": ("lower_tick", I), "pos.upper_tick": ("upper_tick", I)})}),
     ("close_position", {"pool": "obj", "position_info": "obj", "liquidity": I, "sqrt_price_x96": I},
      {"reads": dict(_UC_POOL, **{"position_info.lower_tick": ("lower_tick", I), "position_info.upper_tick": ("upper_tick", I)})}),
+    ("get_token_amounts", {"pool": "obj", "pos": "obj", "sqrt_price_x96": I, "liquidity": D},
+     {"as": "get_token_amounts_dliq", "reads": dict(_UC_POOL, **{"pos.lower_tick": ("lower_tick", I), "pos.upper_tick": ("upper_tick", I)})}),
+    ("close_position", {"pool": "obj", "position_info": "obj", "liquidity": D, "sqrt_price_x96": I},
+     {"as": "close_position_dliq", "reads": dict(_UC_POOL, **{"position_info.lower_tick": ("lower_tick", I), "position_info.upper_tick": ("upper_tick", I)})}),
     # update_fee and the two functions defined inside it (closures over pool / pos / position / state: same read and state tables)
     ("in_range", {"tick": I}, {"nested_in": "update_fee", "as": "update_fee_in_range", "reads": _UC_FEE_READS}),
     ("calc_amounts", {"weight": D}, {"nested_in": "update_fee", "as": "update_fee_calc_amounts", "reads": _UC_FEE_READS, "state": _UC_FEE_STATE}),
